@@ -76,8 +76,8 @@ INF = math.inf
 
 def budget(tier):
     if tier == "quick":
-        return {"examples": 448, "shards": 16, "shrink_seconds": 15}
-    return {"examples": 3200, "shards": 16, "shrink_seconds": 120}
+        return {"examples": 1280, "shards": 16, "shrink_seconds": 10}
+    return {"examples": 9600, "shards": 16, "shrink_seconds": 120}
 
 
 # --------------------------------------------------------------------------------- encoding
@@ -213,102 +213,142 @@ EXHAUSTIVE_NOTE = ("branch grid of %d parameter sets + erf_inv / beta grids is e
 
 
 # --------------------------------------------------------------------------------- strategy
-def _logu(lo, hi, specials=()):
-    """log-uniform on [lo, hi]; with probability ~1/4 one of the special values"""
-    specials = list(specials)
+class _Key:
+    """Deterministic expansion (splitmix64) of ONE integer drawn by Hypothesis into the parameters of a
+    case.  All randomness is the drawn integer; expanding it through a hash instead of drawing every
+    parameter separately keeps the generated parameter sets spread over the ranges (Hypothesis' span
+    mutation otherwise repeats the same few parameter values)."""
 
-    def pick(t):
-        w, j, u = t
-        if specials and w < 2:
+    def __init__(self, key):
+        self.s = key & 0xFFFFFFFFFFFFFFFF
+
+    def bits(self):
+        self.s = (self.s + 0x9E3779B97F4A7C15) & 0xFFFFFFFFFFFFFFFF
+        z = self.s
+        z = ((z ^ (z >> 30)) * 0xBF58476D1CE4E5B9) & 0xFFFFFFFFFFFFFFFF
+        z = ((z ^ (z >> 27)) * 0x94D049BB133111EB) & 0xFFFFFFFFFFFFFFFF
+        return z ^ (z >> 31)
+
+    def u(self):
+        return (self.bits() >> 11) / 9007199254740992.0
+
+    def i(self, lo, hi):
+        return lo + self.bits() % (hi - lo + 1)
+
+    def f(self, lo, hi):
+        return lo + (hi - lo) * self.u()
+
+    def logu(self, lo, hi, specials=()):
+        """log-uniform on [lo, hi]; with probability 1/5 one of the special values"""
+        w, j, u = self.i(0, 4), self.bits(), self.u()
+        if specials and w == 0:
             return specials[j % len(specials)]
         return lo * (hi / lo) ** u
-    return st.tuples(st.integers(0, 7), st.integers(0, 63), st.floats(0.0, 1.0)).map(pick)
+
+    def prob(self):
+        w, u = self.i(0, 9), self.u()
+        return (0.01, 0.5, 0.99)[w] if w < 3 else 0.01 + 0.98 * u
+
+
+_SHAPE_SPECIALS = (1.0, 0.999, 1.001, 0.5, 2.0)
+
+
+def _dist_case_from_key(key, tier):
+    k = _Key(key)
+    names = CONT + DISC
+    cls = names[k.i(0, len(names) - 1)]
+    shape = lambda: k.logu(0.05, 50.0, _SHAPE_SPECIALS)
+    scale = lambda: k.logu(0.05, 50.0, (1.0,))
+    loc = lambda: k.f(-50.0, 50.0)
+    if cls == "DistBeta":
+        p = {"alpha1": shape(), "alpha2": k.logu(0.2, 50.0, (1.0, 0.999, 1.001))}
+    elif cls == "DistErlang":
+        p = {"scale": scale(), "k": (1, 9, 10, 11)[k.i(0, 3)] if k.i(0, 3) == 0 else k.i(1, 60)}
+    elif cls == "DistExponential":
+        p = {"mean": scale()}
+    elif cls == "DistGamma":
+        p = {"shape": shape(), "scale": scale()}
+    elif cls == "DistNormal":
+        p = {"mu": loc(), "sigma": scale()}
+    elif cls == "DistLogNormal":
+        p = {"mu": k.f(-5.0, 5.0), "sigma": k.logu(0.05, 3.0, (1.0,))}
+    elif cls == "DistNormalTrunc":
+        mu, sg = loc(), scale()
+        kind = ("two", "two", "lower", "upper", "none")[k.i(0, 4)]
+        zl, w, zu = k.f(-6.0, 4.5), k.logu(0.01, 10.0), k.f(-4.5, 6.0)
+        if kind == "two":
+            zh = zl + w
+            if R.Phi(zh) - R.Phi(zl) < 4e-6 and R.Phic(zl) - R.Phic(zh) < 4e-6:
+                zh = INF if zl >= 0 else zl + 10.0     # the constructor refuses a window of mass < 1e-6
+            lo, hi = mu + sg * zl, mu + sg * zh
+        elif kind == "lower":
+            lo, hi = mu + sg * zl, INF
+        elif kind == "upper":
+            lo, hi = -INF, mu + sg * zu
+        else:
+            lo, hi = -INF, INF
+        p = {"mu": mu, "sigma": sg, "lo": lo, "hi": hi}
+    elif cls == "DistPearson5":
+        p = {"alpha": shape(), "beta": scale()}
+    elif cls == "DistPearson6":
+        p = {"alpha1": shape(), "alpha2": shape(), "beta": scale()}
+    elif cls == "DistTriangular":
+        lo, w, pick, f = loc(), k.logu(0.05, 100.0), k.i(0, 5), k.u()
+        hi = lo + w
+        mo = lo if pick == 0 else hi if pick == 1 else min(hi, max(lo, lo + f * w))
+        p = {"lo": lo, "mode": mo, "hi": hi}
+    elif cls == "DistUniform":
+        lo = loc()
+        p = {"lo": lo, "hi": lo + k.logu(0.05, 100.0)}
+    elif cls == "DistWeibull":
+        p = {"alpha": shape(), "beta": scale()}
+    elif cls == "DistBernoulli":
+        p = {"p": k.prob()}
+    elif cls == "DistBinomial":
+        p = {"n": k.i(1, 12) if k.i(0, 2) == 0 else k.i(1, 300), "p": k.prob()}
+    elif cls == "DistDiscreteUniform":
+        lo = k.i(-50, 50)
+        p = {"lo": lo, "hi": lo + k.i(1, 200)}
+    elif cls == "DistGeometric":
+        p = {"p": k.prob()}
+    elif cls == "DistNegBinomial":
+        p = {"s": k.i(1, 4) if k.i(0, 2) == 0 else k.i(1, 60), "p": k.prob()}
+    else:
+        r = k.logu(0.05, 100.0, (1.0, 100.0)) if k.i(0, 2) else k.i(1, 100)
+        p = {"rate": r}
+    seed = k.i(0, 2 ** 31 - 1)
+    probes = [k.f(1e-9, 1 - 1e-9) for _ in range(6)] if cls in HAS_CDF else ()
+    return _case(cls, p, seed, tier, "random", probes=probes)
+
+
+def _erf_case_from_key(key):
+    k = _Key(key)
+    ys = []
+    for _ in range(30):
+        w = k.i(0, 5)
+        y = (k.f(-1.0, 1.0) if w == 0 else k.f(0.74, 0.76) if w == 1 else k.f(0.93, 0.945) if w == 2
+             else 1.0 - k.f(1e-9, 0.1) if w == 3 else 1.0 - 10.0 ** k.f(-9.0, -1.0) if w == 4
+             else 10.0 ** k.f(-300.0, -1.0))
+        ys.append((-y if k.i(0, 1) else y).hex())
+    return {"t": "erf_inv", "ys": ys, "origin": "random"}
+
+
+def _beta_case_from_key(key):
+    k = _Key(key)
+    zw = [[k.logu(0.05, 50.0, _SHAPE_SPECIALS).hex(), k.logu(0.05, 50.0, _SHAPE_SPECIALS).hex()] for _ in range(20)]
+    return {"t": "beta", "zw": zw, "origin": "random"}
 
 
 def strategy(tier):
-    shape = _logu(0.05, 50.0, (1.0, 0.999, 1.001, 0.5, 2.0))
-    scale = _logu(0.05, 50.0, (1.0,))
-    prob = st.tuples(st.integers(0, 7), st.floats(0.01, 0.99)).map(
-        lambda t: (0.01, 0.5, 0.99)[t[0]] if t[0] < 3 else t[1])
-    loc = st.floats(-50.0, 50.0)
-    seed = st.integers(0, 2 ** 31 - 1)
-    probes = st.lists(st.floats(1e-9, 1 - 1e-9), min_size=6, max_size=6)
-
-    @st.composite
-    def dist_case(draw):
-        cls = (CONT + DISC)[draw(st.integers(0, len(CONT + DISC) - 1))]
-        d = draw
-        if cls == "DistBeta":
-            p = {"alpha1": d(shape), "alpha2": d(_logu(0.2, 50.0, (1.0, 0.999, 1.001)))}
-        elif cls == "DistErlang":
-            p = {"scale": d(scale), "k": d(st.one_of(st.sampled_from([1, 9, 10, 11]), st.integers(1, 60)))}
-        elif cls == "DistExponential":
-            p = {"mean": d(scale)}
-        elif cls == "DistGamma":
-            p = {"shape": d(shape), "scale": d(scale)}
-        elif cls == "DistNormal":
-            p = {"mu": d(loc), "sigma": d(scale)}
-        elif cls == "DistLogNormal":
-            p = {"mu": d(st.floats(-5.0, 5.0)), "sigma": d(_logu(0.05, 3.0, (1.0,)))}
-        elif cls == "DistNormalTrunc":
-            mu, sg = d(loc), d(scale)
-            kind = d(st.sampled_from(["two", "two", "lower", "upper", "none"]))
-            zl = d(st.floats(-6.0, 4.5))
-            w = d(_logu(0.01, 10.0))
-            zu = d(st.floats(-4.5, 6.0))
-            if kind == "two":
-                zh = zl + w
-                if R.Phi(zh) - R.Phi(zl) < 4e-6 and R.Phic(zl) - R.Phic(zh) < 4e-6:
-                    zh = INF if zl >= 0 else zl + 10.0
-                lo, hi = mu + sg * zl, mu + sg * zh
-            elif kind == "lower":
-                lo, hi = mu + sg * zl, INF
-            elif kind == "upper":
-                lo, hi = -INF, mu + sg * zu
-            else:
-                lo, hi = -INF, INF
-            p = {"mu": mu, "sigma": sg, "lo": lo, "hi": hi}
-        elif cls == "DistPearson5":
-            p = {"alpha": d(shape), "beta": d(scale)}
-        elif cls == "DistPearson6":
-            p = {"alpha1": d(shape), "alpha2": d(shape), "beta": d(scale)}
-        elif cls == "DistTriangular":
-            lo = d(loc)
-            w = d(_logu(0.05, 100.0))
-            f = d(st.one_of(st.sampled_from([0.0, 1.0, 0.5]), st.floats(0.0, 1.0), st.floats(0.0, 1.0)))
-            hi = lo + w
-            mo = lo if f == 0.0 else hi if f == 1.0 else min(hi, max(lo, lo + f * w))
-            p = {"lo": lo, "mode": mo, "hi": hi}
-        elif cls == "DistUniform":
-            lo = d(loc)
-            p = {"lo": lo, "hi": lo + d(_logu(0.05, 100.0))}
-        elif cls == "DistWeibull":
-            p = {"alpha": d(shape), "beta": d(scale)}
-        elif cls == "DistBernoulli":
-            p = {"p": d(prob)}
-        elif cls == "DistBinomial":
-            p = {"n": d(st.one_of(st.integers(1, 12), st.integers(1, 300))), "p": d(prob)}
-        elif cls == "DistDiscreteUniform":
-            lo = d(st.integers(-50, 50))
-            p = {"lo": lo, "hi": lo + d(st.integers(1, 200))}
-        elif cls == "DistGeometric":
-            p = {"p": d(prob)}
-        elif cls == "DistNegBinomial":
-            p = {"s": d(st.one_of(st.integers(1, 4), st.integers(1, 60))), "p": d(prob)}
-        else:
-            r = d(st.one_of(_logu(0.05, 100.0, (1.0, 100.0)), st.integers(1, 100)))
-            p = {"rate": r}
-        return _case(cls, p, d(seed), tier, "random", probes=d(probes) if cls in HAS_CDF else ())
-
-    ys = st.one_of(st.floats(-1.0, 1.0), st.floats(0.74, 0.76), st.floats(0.93, 0.945),
-                   st.floats(1e-9, 0.1).map(lambda e: 1.0 - e), st.floats(-9.0, -1.0).map(lambda e: 1.0 - 10.0 ** e),
-                   st.floats(-300.0, -1.0).map(lambda e: 10.0 ** e))
-    erf_case = st.lists(st.tuples(ys, st.booleans()).map(lambda t: (-t[0] if t[1] else t[0]).hex()),
-                        min_size=30, max_size=30).map(lambda l: {"t": "erf_inv", "ys": l, "origin": "random"})
-    beta_case = st.lists(st.tuples(shape, shape).map(lambda t: [t[0].hex(), t[1].hex()]),
-                         min_size=20, max_size=20).map(lambda l: {"t": "beta", "zw": l, "origin": "random"})
-    dc = dist_case()
-    return st.integers(0, 24).flatmap(lambda w: erf_case if w == 0 else beta_case if w == 1 else dc)
+    """Hypothesis draws one 64-bit key; the key is expanded deterministically into a case."""
+    def make(key):
+        w = _Key(key ^ 0x5DEECE66D).i(0, 24)
+        if w == 0:
+            return _erf_case_from_key(key)
+        if w == 1:
+            return _beta_case_from_key(key)
+        return _dist_case_from_key(key, tier)
+    return st.integers(0, 2 ** 64 - 1).map(make)
 
 
 # --------------------------------------------------------------------------------- sampling
@@ -445,7 +485,7 @@ def _check_continuous(out, case, cls, params, n):
                 probe(sign * 5e-324, True)
 
     # ---- integral of the declared density and KS against its running integral
-    s_lo, s_hi, resolvable = R.effective_range(ref, xs[0], xs[-1])
+    s_lo, s_hi, resolvable = R.effective_range(ref, xs[n // 2])
     if not resolvable or not s_lo < s_hi:
         out.label("integral:skipped-unresolvable")
     else:
